@@ -96,6 +96,30 @@ def observe(Q, d, h, ph):
     return tail, params
 
 
+def sqlite_rows(Q, h, ph):
+    """execute the ordered top-level SQLite statement on the ten-row table 0..9"""
+    import sqlite3
+
+    import pypika_tortoise as P
+
+    t1 = P.Table("t1")
+    q = Q.from_(t1).select(t1.a).orderby(t1.a)
+    for c in h["hist"]:
+        q = apply(q, c)
+    con = sqlite3.connect(":memory:")
+    try:
+        con.execute("CREATE TABLE t1 (a)")
+        con.executemany("INSERT INTO t1 VALUES (?)", [(i,) for i in range(10)])
+        if ph:
+            sql, vals = q.get_parameterized_sql()
+            return [r[0] for r in con.execute(sql, vals).fetchall()]
+        return [r[0] for r in con.execute(str(q)).fetchall()]
+    except sqlite3.Error as ex:
+        return [-1]
+    finally:
+        con.close()
+
+
 def run(tier: str) -> int:
     rep = core.Report("C09", tier)
     r = tlc.run("MC_C09", "CONSTANTS\nMaxCalls = %d\nSrcTab <- G_SrcTab\nINIT Init\nNEXT Next\nINVARIANT SlotsOK\nINVARIANT Emit\n" % (2 if tier == "quick" else 3),
@@ -122,7 +146,11 @@ def run(tier: str) -> int:
                 if any(not isinstance(p, int) for p in params):
                     rep.discrepancy([[d, "param-not-plain", h["pos"]]], {"dialect": d, "history": h, "params": repr(params)}, what="non-plain parameter value")
                     continue
-                events.append({"tid": len(events), "d": d, "hist": h["hist"], "ordered": h["ordered"], "ph": ph, "tail": tail, "params": params})
+                engine, rows = False, []
+                if d == "sqlite" and h["pos"] == "top" and h["ordered"] and not (tail and tail[0] == "OFFSET"):
+                    engine, rows = True, sqlite_rows(Q, h, ph)
+                events.append({"tid": len(events), "d": d, "hist": h["hist"], "ordered": h["ordered"], "ph": ph, "tail": tail, "params": params,
+                               "engine": engine, "rows": rows})
                 meta.append((d, h, ph))
     results = tlc.judge_shards("J_C09", "CONSTANT SrcTab <- G_SrcTab\nINIT Init\nNEXT Next\n", events, shard=max(500, len(events) // 16 + 1))
     rep.add_tlc(results)
